@@ -1396,7 +1396,8 @@ The task's shell could not be started.";
 		rc = WEXITSTATUS(xt.xc);
 	}
 
-	/* no disruptions please */
+	/* no disruptions please, and the time limit was this task's */
+	alarm(0);
 	block_sigs();
 	/* write out VJOURNAL */
 	if (argi->vjournal_flag) {
